@@ -6,7 +6,9 @@
   * `stOf` — the parser state over a token list, `advance_stOf`, `advance2_stOf`;
   * `OperandF` — "the token list `ts` is parsed, at binding power `q`, to the node `n`, whatever follows";
   * the Pratt lemmas: `loop_split` (a loop at a lower power continues where the loop at a higher power stopped),
-    `binary_step`, and the three-operand theorems with explicit fuel.
+    `binary_step`, `operand_binop`, `left_group`, `right_group` (explicit fuel bounds), `chain_left` (chains of any
+    length at one level), the basic operands, the unary operators, parentheses;
+  * `parse_of_operandF` / `parse_of_operand`: from token lists to `Parser.parse`.
 -/
 import Jmes.Model.Parser
 import Jmes.Model.Api
@@ -165,5 +167,548 @@ theorem projection_mono {f g p s r} (h : f ≤ g) (hx : projection f p s = .ok r
 theorem expression_mono_res {f g p s} (h : f ≤ g) (hx : expression f p s ≠ .error .fuel) :
     expression g p s = expression f p s :=
   ((mono_le h).expr p).h s hx
+
+/-! ## The parser state over a token list -/
+
+def endTok : Token := ⟨.end, []⟩
+
+/-- the state whose window is the first two tokens of `ts ++ [end, end, …]` -/
+def stOf (ts : List Token) : PState := ⟨ts.headD endTok, ts.tail.headD endTok, ts.drop 2, none⟩
+
+@[simp] theorem stOf_curr (t : Token) (ts) : (stOf (t :: ts)).curr = t := rfl
+@[simp] theorem stOf_next (t t' : Token) (ts) : (stOf (t :: t' :: ts)).next = t' := rfl
+
+theorem advance_stOf (t : Token) (ts : List Token) : advance (stOf (t :: ts)) = .ok ((), stOf ts) := by
+  match ts with
+  | [] => rfl
+  | [_] => rfl
+  | _ :: _ :: _ => rfl
+
+theorem advance_stOf_nil : advance (stOf []) = .ok ((), stOf []) := rfl
+
+theorem advance2_stOf (t t' : Token) (ts : List Token) : advance2 (stOf (t :: t' :: ts)) = .ok ((), stOf ts) := by
+  match ts with
+  | [] => rfl
+  | [_] => rfl
+  | _ :: _ :: _ => rfl
+
+/-! ## Running `do` blocks -/
+
+theorem bind_ok {α β} {x : PM α} {f : α → PM β} {s s' : PState} {a : α} (h : x s = .ok (a, s')) :
+    (x >>= f) s = f a s' := by
+  rw [bind_run, h]
+
+theorem bind_err {α β} {x : PM α} {f : α → PM β} {s : PState} {e} (h : x s = .error e) :
+    (x >>= f) s = .error e := by
+  rw [bind_run, h]
+
+theorem currType_run (s : PState) : currType s = .ok (s.curr.type, s) := rfl
+theorem nextType_run (s : PState) : nextType s = .ok (s.next.type, s) := rfl
+theorem get_run (s : PState) : (get : PM PState) s = .ok (s, s) := rfl
+theorem pure_run {α} (a : α) (s : PState) : (pure a : PM α) s = .ok (a, s) := rfl
+
+
+/-! ## The operator loop -/
+
+theorem expression_succ_run (f p : Nat) (s : PState) :
+    expression (f+1) p s = match primaryExpression f s with
+      | .ok (n, s1) => exprLoop f n p s1
+      | .error e => .error e := by
+  rw [expression.eq_2, bind_run]
+  cases primaryExpression f s <;> rfl
+
+theorem expression_of_prim {f p : Nat} {s s1 : PState} {n : INode} (h : primaryExpression f s = .ok (n, s1)) :
+    expression (f+1) p s = exprLoop f n p s1 := by
+  rw [expression_succ_run, h]
+
+theorem exprLoop_stop {f : Nat} {n : INode} {p : Nat} {s : PState} (h : precedence s.curr.type ≤ p) :
+    exprLoop (f+1) n p s = .ok (n, s) := by
+  rw [exprLoop.eq_2, bind_ok (currType_run s)]
+  simp only [h, if_true]
+  rfl
+
+/-- the node constructor of a binary operator token: the twelve arithmetic / comparison operators, `&&`, `||`, `|` -/
+def mkBin (t : TokenType) : Option (INode → INode → INode) :=
+  match binOpOf t with
+  | some op => some (.binop op)
+  | none =>
+    match t with
+    | .and => some .and
+    | .or => some .or
+    | .pipe => some .pipe
+    | _ => none
+
+theorem exprLoop_bin {f : Nat} {n : INode} {p : Nat} {s : PState} {mk} (hmk : mkBin s.curr.type = some mk)
+    (hp : p < precedence s.curr.type) :
+    exprLoop (f+1) n p s =
+      (advance >>= fun _ => expression f (precedence s.curr.type) >>= fun r => exprLoop f (mk n r) p) s := by
+  rw [exprLoop.eq_2, bind_ok (currType_run s)]
+  have hn : ¬ precedence s.curr.type ≤ p := by omega
+  simp only [hn, if_false]
+  generalize s.curr.type = t at *
+  cases t <;> simp [mkBin, binOpOf] at hmk <;> subst hmk <;> rfl
+
+
+/-! ## Loop splitting -/
+
+/-- `x` ends in a call of the loop at power `q`; `y` is the same computation (with at least as much fuel) ending in
+    a call of the loop at a lower power: whenever `x` succeeds and the continuation `C` holds of its result, `y`
+    yields the continuation's result -/
+structure Rel (C : INode → PState → (INode × PState) → Prop) (x y : PM INode) : Prop where
+  h : ∀ s a s2, x s = .ok (a, s2) → ∀ res, C a s2 res → y s = .ok res
+
+theorem Rel.fail {C e} {y : PM INode} : Rel C (fail e) y := ⟨fun _ _ _ h => by cases h⟩
+
+theorem Rel.bind {α C} {x y : PM α} {f f' : α → PM INode} (h1 : Le x y) (h2 : ∀ r, Rel C (f r) (f' r)) :
+    Rel C (x >>= f) (y >>= f') := by
+  constructor
+  intro s a s2 hx res hC
+  rw [bind_run] at hx
+  cases hxs : x s with
+  | error e => rw [hxs] at hx; cases hx
+  | ok r =>
+    obtain ⟨r, s'⟩ := r
+    rw [hxs] at hx
+    rw [bind_ok (h1.ok hxs)]
+    exact (h2 r).h s' a s2 hx res hC
+
+theorem Rel.ite {C} {c : Prop} [Decidable c] {a a' b b' : PM INode} (h1 : Rel C a a') (h2 : Rel C b b') :
+    Rel C (if c then a else b) (if c then a' else b') := by
+  split <;> assumption
+
+macro "rel_tac" hm:ident ih:ident : tactic => `(tactic|
+  repeat (first
+    | exact Rel.fail
+    | exact $ih _
+    | exact Le.refl _
+    | exact Mono.expr $hm _
+    | exact Mono.loop $hm _ _
+    | exact Mono.filt $hm
+    | exact Mono.proj $hm _
+    | exact Mono.sarr $hm _
+    | exact Mono.sobj $hm _
+    | apply Rel.bind
+    | apply Rel.ite
+    | intro _
+    | split))
+
+/-- **The Pratt loop lemma.** If the loop at power `q` takes `n0` to `a` and stops in state `s2`, the loop at a
+    lower power `p ≤ q` does the same work and then carries on from `a` in `s2`. -/
+theorem loop_split_rel {p q g : Nat} (hpq : p ≤ q) :
+    ∀ f n0, Rel (fun a s2 res => exprLoop g a p s2 = .ok res) (exprLoop f n0 q) (exprLoop (f + g) n0 p)
+  | 0, n0 => by rw [exprLoop.eq_1]; exact Rel.fail
+  | f + 1, n0 => by
+    have ih := loop_split_rel (g := g) hpq f
+    have hm : Mono f (f + g) := mono_le (by omega)
+    constructor
+    intro s a s2 hx res hC
+    rw [exprLoop.eq_2, bind_ok (currType_run s)] at hx
+    by_cases h : precedence s.curr.type ≤ q
+    · simp only [h, if_true] at hx
+      cases hx
+      exact exprLoop_mono (by omega) hC
+    · have h' : ¬ precedence s.curr.type ≤ p := by omega
+      by_cases hnot : s.curr.type = .not
+      · simp only [h, if_false] at hx
+        rw [hnot] at hx
+        simp only [binOpOf] at hx
+        cases hx
+        exact exprLoop_mono (by omega) hC
+      · rw [Nat.add_right_comm, exprLoop.eq_2, bind_ok (currType_run s)]
+        simp only [h, h', if_false] at hx ⊢
+        generalize s.curr.type = t at *
+        refine (?_ : Rel (fun a s2 res => exprLoop g a p s2 = .ok res) _ _).h s a s2 hx res hC
+        clear hx hC
+        cases t <;> first
+          | exact absurd rfl hnot
+          | exact absurd (Nat.zero_le _) h
+          | (simp only [binOpOf]; rel_tac hm ih)
+
+theorem loop_split {p q f g : Nat} {n0 a : INode} {s1 s2 : PState} {res} (hpq : p ≤ q)
+    (h1 : exprLoop f n0 q s1 = .ok (a, s2)) (h2 : exprLoop g a p s2 = .ok res) :
+    exprLoop (f + g) n0 p s1 = .ok res :=
+  (loop_split_rel hpq f n0).h s1 a s2 h1 res h2
+
+
+/-! ## Operands -/
+
+/-- what may follow an operand parsed at power `q`: a token at which the loop at power `q` stops — and which is not
+    `(`, which would turn a preceding identifier into a function name -/
+def Follow (q : Nat) (rest : List Token) : Prop :=
+  precedence (stOf rest).curr.type ≤ q ∧ (stOf rest).curr.type ≠ .openParen
+
+theorem Follow.mono {p q : Nat} {rest} (h : Follow p rest) (hpq : p ≤ q) : Follow q rest :=
+  ⟨Nat.le_trans h.1 hpq, h.2⟩
+
+/-- `expression f0 q` parses the tokens `ts` to the node `n` and stops, whatever follows (`Follow q`) -/
+def OperandF (f0 q : Nat) (ts : List Token) (n : INode) : Prop :=
+  ∀ rest, Follow q rest → expression f0 q (stOf (ts ++ rest)) = .ok (n, stOf rest)
+
+theorem OperandF.mono {f g q : Nat} {ts n} (h : OperandF f q ts n) (hfg : f ≤ g) : OperandF g q ts n :=
+  fun rest hr => expression_mono hfg (h rest hr)
+
+theorem mkBin_prec {t : TokenType} {mk} (h : mkBin t = some mk) :
+    2 ≤ precedence t ∧ precedence t ≤ 7 ∧ t ≠ .openParen := by
+  cases t <;> simp [mkBin, binOpOf] at h <;> simp [precedence]
+
+theorem follow_cons {q : Nat} {o : Token} {ts : List Token} {mk} (hmk : mkBin o.type = some mk)
+    (h : precedence o.type ≤ q) : Follow q (o :: ts) :=
+  ⟨h, (mkBin_prec hmk).2.2⟩
+
+/-- an operand at power `q`, parsed at a lower power `p`: the loop at power `p` carries on after it -/
+theorem operand_lower {fA q p g : Nat} {A : List Token} {a : INode} {rest : List Token} {res}
+    (hA : OperandF fA q A a) (hpq : p ≤ q) (hr : Follow q rest)
+    (hk : exprLoop g a p (stOf rest) = .ok res) :
+    expression (fA + g) p (stOf (A ++ rest)) = .ok res := by
+  have h := hA rest hr
+  cases fA with
+  | zero => rw [expression.eq_1] at h; cases h
+  | succ f =>
+    rw [expression_succ_run] at h
+    cases hp : primaryExpression f (stOf (A ++ rest)) with
+    | error e => rw [hp] at h; cases h
+    | ok r =>
+      obtain ⟨n0, s1⟩ := r
+      rw [hp] at h
+      rw [Nat.add_right_comm, expression_of_prim (primaryExpression_mono (by omega) hp)]
+      exact loop_split hpq h hk
+
+/-- **`binary_step`**: with the left operand `l` in hand, the loop at power `p` consumes a binary operator `o` of
+    higher level and its right operand `B` (an operand at the level of `o`), and carries on with `mk l b`. -/
+theorem binary_step {o : Token} {mk} {B : List Token} {b l : INode} {fB p fuel : Nat} {rest : List Token}
+    (hmk : mkBin o.type = some mk) (hp : p < precedence o.type)
+    (hB : OperandF fB (precedence o.type) B b) (hr : Follow (precedence o.type) rest) (hf : fB ≤ fuel) :
+    exprLoop (fuel + 1) l p (stOf (o :: (B ++ rest))) = exprLoop fuel (mk l b) p (stOf rest) := by
+  rw [exprLoop_bin (s := stOf (o :: (B ++ rest))) hmk hp, bind_ok (advance_stOf _ _)]
+  simp only [stOf_curr]
+  rw [bind_ok (expression_mono hf (hB rest hr))]
+
+/-- `A o B`, with `A` and `B` operands at the level `q` of `o`, is an operand at every lower power -/
+theorem operand_binop {o : Token} {mk} {A B : List Token} {a b : INode} {fA fB p q : Nat}
+    (hmk : mkBin o.type = some mk) (hq : precedence o.type = q) (hp : p < q)
+    (hA : OperandF fA q A a) (hB : OperandF fB q B b) :
+    OperandF (fA + (fB + 2)) p (A ++ o :: B) (mk a b) := by
+  intro rest hr
+  subst hq
+  rw [List.append_assoc, List.cons_append]
+  apply operand_lower hA (Nat.le_of_lt hp) (follow_cons hmk (Nat.le_refl _))
+  rw [binary_step hmk hp hB (hr.mono (Nat.le_of_lt hp)) (Nat.le_succ _)]
+  exact exprLoop_stop hr.1
+
+/-- `A o1 B o2 C` groups to the left when `o2` is not tighter than `o1` -/
+theorem left_group {o1 o2 : Token} {mk1 mk2} {A B C : List Token} {a b c : INode} {fA fB fC p q1 q2 : Nat}
+    (hmk1 : mkBin o1.type = some mk1) (hmk2 : mkBin o2.type = some mk2)
+    (hq1 : precedence o1.type = q1) (hq2 : precedence o2.type = q2) (h21 : q2 ≤ q1) (hp : p < q2)
+    (hA : OperandF fA q1 A a) (hB : OperandF fB q1 B b) (hC : OperandF fC q2 C c) :
+    OperandF (fA + (fB + fC + 3)) p (A ++ o1 :: (B ++ o2 :: C)) (mk2 (mk1 a b) c) := by
+  intro rest hr
+  subst hq1 hq2
+  have e : (A ++ o1 :: (B ++ o2 :: C)) ++ rest = A ++ o1 :: (B ++ o2 :: (C ++ rest)) := by simp
+  rw [e]
+  apply operand_lower hA (by omega) (follow_cons hmk1 (Nat.le_refl _))
+  rw [binary_step hmk1 (by omega) hB (follow_cons hmk2 h21) (by omega : fB ≤ fB + fC + 2),
+    show fB + fC + 2 = (fB + fC + 1) + 1 from rfl,
+    binary_step hmk2 hp hC (hr.mono (Nat.le_of_lt hp)) (by omega)]
+  exact exprLoop_stop hr.1
+
+/-- `A o1 B o2 C` groups to the right when `o2` is tighter than `o1` -/
+theorem right_group {o1 o2 : Token} {mk1 mk2} {A B C : List Token} {a b c : INode} {fA fB fC p q1 q2 : Nat}
+    (hmk1 : mkBin o1.type = some mk1) (hmk2 : mkBin o2.type = some mk2)
+    (hq1 : precedence o1.type = q1) (hq2 : precedence o2.type = q2) (h12 : q1 < q2) (hp : p < q1)
+    (hA : OperandF fA q1 A a) (hB : OperandF fB q2 B b) (hC : OperandF fC q2 C c) :
+    OperandF (fA + (fB + (fC + 2) + 2)) p (A ++ o1 :: (B ++ o2 :: C)) (mk1 a (mk2 b c)) :=
+  operand_binop hmk1 hq1 hp hA (operand_binop hmk2 hq2 h12 hB hC)
+
+
+/-! ## Basic operands -/
+
+theorem stOf_next_eq (t : Token) (rest : List Token) : (stOf (t :: rest)).next = (stOf rest).curr := rfl
+
+/-- a primary expression that consumes exactly the tokens `ts` is an operand at every power -/
+theorem operand_of_prim {f q : Nat} {ts : List Token} {n : INode}
+    (h : ∀ rest, Follow q rest → primaryExpression f (stOf (ts ++ rest)) = .ok (n, stOf rest)) :
+    OperandF (f + 2) q ts n := by
+  intro rest hr
+  rw [expression_of_prim (primaryExpression_mono (Nat.le_succ f) (h rest hr))]
+  exact exprLoop_stop hr.1
+
+theorem operand_current {t : Token} (ht : t.type = .current) (q : Nat) : OperandF 3 q [t] .current := by
+  apply operand_of_prim (f := 1)
+  intro rest _
+  rw [primaryExpression.eq_2, bind_ok (get_run _)]
+  simp only [List.singleton_append, stOf_curr, ht]
+  rw [bind_ok (advance_stOf _ _)]
+  rfl
+
+theorem operand_root {t : Token} (ht : t.type = .root) (q : Nat) : OperandF 3 q [t] .root := by
+  apply operand_of_prim (f := 1)
+  intro rest _
+  rw [primaryExpression.eq_2, bind_ok (get_run _)]
+  simp only [List.singleton_append, stOf_curr, ht]
+  rw [bind_ok (advance_stOf _ _)]
+  rfl
+
+theorem operand_variable {t : Token} (ht : t.type = .variable) (q : Nat) : OperandF 3 q [t] (.variable t.value) := by
+  apply operand_of_prim (f := 1)
+  intro rest _
+  rw [primaryExpression.eq_2, bind_ok (get_run _)]
+  simp only [List.singleton_append, stOf_curr, ht]
+  rw [bind_ok (advance_stOf _ _)]
+  rfl
+
+theorem operand_string {t : Token} (ht : t.type = .stringLiteral) (q : Nat) :
+    OperandF 3 q [t] (.lit (.str (parseStringLiteral t.value))) := by
+  apply operand_of_prim (f := 1)
+  intro rest _
+  rw [primaryExpression.eq_2, bind_ok (get_run _)]
+  simp only [List.singleton_append, stOf_curr, ht]
+  rw [bind_ok (advance_stOf _ _)]
+  rfl
+
+theorem operand_json {t : Token} {v : Val} (ht : t.type = .jsonLiteral) (hv : parseJSONLiteral t.value = some v)
+    (q : Nat) : OperandF 3 q [t] (.lit v) := by
+  apply operand_of_prim (f := 1)
+  intro rest _
+  rw [primaryExpression.eq_2, bind_ok (get_run _)]
+  simp only [List.singleton_append, stOf_curr, ht, hv]
+  rw [bind_ok (advance_stOf _ _)]
+  rfl
+
+theorem operand_quoted {t : Token} {k : Bytes} (ht : t.type = .quotedIdentifier)
+    (hk : parseQuotedIdentifier t.value = some k) (q : Nat) : OperandF 3 q [t] (.field k) := by
+  apply operand_of_prim (f := 1)
+  intro rest _
+  rw [primaryExpression.eq_2, bind_ok (get_run _)]
+  simp only [List.singleton_append, stOf_curr, ht, hk]
+  rw [bind_ok (advance_stOf _ _)]
+  rfl
+
+/-- an identifier (not followed by `(`: that is part of `Follow`) -/
+theorem operand_ident {t : Token} (ht : t.type = .unquotedIdentifier) (q : Nat) :
+    OperandF 3 q [t] (.field t.value) := by
+  apply operand_of_prim (f := 1)
+  intro rest hr
+  rw [primaryExpression.eq_2, bind_ok (get_run _)]
+  have hn : ((stOf (t :: rest)).next.type == TokenType.openParen) = false := by
+    rw [stOf_next_eq]; simpa using hr.2
+  simp only [List.singleton_append, stOf_curr, ht, hn, Bool.false_eq_true, if_false]
+  rw [bind_ok (advance_stOf _ _)]
+  rfl
+
+/-- `( e )`: a parenthesised expression is an operand at every power -/
+theorem operand_paren {l r : Token} (hl : l.type = .openParen) (hr : r.type = .closeParen)
+    {f : Nat} {E : List Token} {n : INode} (hE : OperandF f 1 E n) (q : Nat) :
+    OperandF (f + 3) q (l :: (E ++ [r])) n := by
+  apply operand_of_prim (f := f + 1)
+  intro rest _
+  rw [primaryExpression.eq_2, bind_ok (get_run _)]
+  have e : (l :: (E ++ [r])) ++ rest = l :: (E ++ r :: rest) := by simp
+  have hf : Follow 1 (r :: rest) := ⟨by simp [hr, precedence], by simp [hr]⟩
+  simp only [e, stOf_curr, hl]
+  rw [bind_ok (advance_stOf _ _), bind_ok (hE _ hf), bind_ok (currType_run _)]
+  simp only [stOf_curr, hr, bne_self_eq_false, Bool.false_eq_true, if_false]
+  rw [bind_ok (advance_stOf _ _)]
+  rfl
+
+/-! ## Unary operators -/
+
+/-- `! A`, with `A` an operand at the power of `!`, is an operand at every power up to that of `!` -/
+theorem operand_not {t : Token} (ht : t.type = .not) {f : Nat} {A : List Token} {a : INode}
+    (hA : OperandF f (precedence .not) A a) {q : Nat} (hq : q ≤ precedence .not) :
+    OperandF (f + 3) q (t :: A) (.not a) := by
+  apply operand_of_prim (f := f + 1)
+  intro rest hr
+  rw [primaryExpression.eq_2, bind_ok (get_run _)]
+  simp only [List.cons_append, stOf_curr, ht]
+  rw [bind_ok (advance_stOf _ _), bind_ok (hA _ (hr.mono hq))]
+  rfl
+
+/-- `- A`, with `A` an operand at the multiplicative power, is an operand at every power up to that one -/
+theorem operand_negate {t : Token} (ht : t.type = .subtract) {f : Nat} {A : List Token} {a : INode}
+    (hA : OperandF f (precedence .multiply) A a) {q : Nat} (hq : q ≤ precedence .multiply) :
+    OperandF (f + 3) q (t :: A) (.negate a) := by
+  apply operand_of_prim (f := f + 1)
+  intro rest hr
+  rw [primaryExpression.eq_2, bind_ok (get_run _)]
+  simp only [List.cons_append, stOf_curr, ht]
+  rw [bind_ok (advance_stOf _ _), bind_ok (hA _ (hr.mono hq))]
+  rfl
+
+/-- `+ A` -/
+theorem operand_plus {t : Token} (ht : t.type = .add) {f : Nat} {A : List Token} {a : INode}
+    (hA : OperandF f (precedence .multiply) A a) {q : Nat} (hq : q ≤ precedence .multiply) :
+    OperandF (f + 3) q (t :: A) (.assertNumber a) := by
+  apply operand_of_prim (f := f + 1)
+  intro rest hr
+  rw [primaryExpression.eq_2, bind_ok (get_run _)]
+  simp only [List.cons_append, stOf_curr, ht]
+  rw [bind_ok (advance_stOf _ _), bind_ok (hA _ (hr.mono hq))]
+  rfl
+
+
+/-! ## The selector `.` followed by an identifier (used to compare it with the unary operators) -/
+
+theorem exprLoop_dot_ident {f : Nat} {n : INode} {p : Nat} {s : PState} (hd : s.curr.type = .dot)
+    (hn : s.next.type = .unquotedIdentifier ∨ s.next.type = .quotedIdentifier) (hp : p < precedence .dot) :
+    exprLoop (f+1) n p s =
+      (advance >>= fun _ => expression f (precedence .dot) >>= fun r => exprLoop f (.pipe n r) p) s := by
+  rw [exprLoop.eq_2, bind_ok (currType_run s)]
+  have hn' : ¬ precedence .dot ≤ p := by omega
+  simp only [hd, hn', if_false, binOpOf]
+  rw [bind_ok (nextType_run s)]
+  rcases hn with hn | hn <;> rw [hn] <;> rfl
+
+/-- `A . B` where `B` starts with an identifier: the sub-expression (a `pipe` node in this implementation) -/
+theorem operand_dot {d t : Token} (hd : d.type = .dot)
+    (ht : t.type = .unquotedIdentifier ∨ t.type = .quotedIdentifier)
+    {A B : List Token} {a b : INode} {fA fB p : Nat} (hp : p < precedence .dot)
+    (hA : OperandF fA (precedence .dot) A a) (hB : OperandF fB (precedence .dot) (t :: B) b) :
+    OperandF (fA + (fB + 2)) p (A ++ d :: t :: B) (.pipe a b) := by
+  intro rest hr
+  have e : (A ++ d :: t :: B) ++ rest = A ++ d :: (t :: B ++ rest) := by simp
+  rw [e]
+  apply operand_lower hA (Nat.le_of_lt hp) ⟨by simp [hd], by simp [hd]⟩
+  rw [exprLoop_dot_ident (s := stOf (d :: (t :: B ++ rest))) hd (by simpa using ht) hp,
+    bind_ok (advance_stOf _ _), bind_ok (expression_mono (Nat.le_succ _) (hB rest (hr.mono (Nat.le_of_lt hp))))]
+  exact exprLoop_stop hr.1
+
+/-! ## From token lists to `Parser.parse` -/
+
+/-- `Parser.parse` after lexing -/
+def runTop (ts : List Token) : Except PErr INode :=
+  match (do
+    let node ← expression (fuelFor ts.length) 1
+    if (← currType) != .end then fail .unexpectedToken
+    return node : PM INode) (stOf ts) with
+  | .ok (n, _) => .ok n
+  | .error err => .error err
+
+theorem parse_of_lex {e : Bytes} {ts : List Token} (h : lexAll e = (ts, none)) : Parser.parse e = runTop ts := by
+  unfold Parser.parse runTop
+  rw [h]
+  match ts with
+  | [] => rfl
+  | [_] => rfl
+  | _ :: _ :: _ => rfl
+
+theorem follow_end (q : Nat) : Follow q [endTok] := ⟨Nat.zero_le _, by decide⟩
+
+theorem runTop_of_expr {ts : List Token} {n : INode}
+    (h : expression (fuelFor ts.length) 1 (stOf ts) = .ok (n, stOf [endTok])) : runTop ts = .ok n := by
+  unfold runTop
+  rw [bind_ok h, bind_ok (currType_run _)]
+  rfl
+
+/-- an operand at power 1 whose fuel bound is within the parser's budget is what `Parser.parse` returns -/
+theorem parse_of_operandF {e : Bytes} {ts : List Token} {n : INode} {f0 : Nat}
+    (hl : lexAll e = (ts ++ [endTok], none)) (hO : OperandF f0 1 ts n) (hf : f0 ≤ fuelFor (ts.length + 1)) :
+    Parser.parse e = .ok n := by
+  rw [parse_of_lex hl]
+  apply runTop_of_expr
+  apply expression_mono (f := f0) (by simpa using hf)
+  exact hO _ (follow_end 1)
+
+/-- … and with an unknown fuel bound: unless the parser reports fuel exhaustion -/
+theorem parse_of_operand {e : Bytes} {ts : List Token} {n : INode} {f0 : Nat}
+    (hl : lexAll e = (ts ++ [endTok], none)) (hO : OperandF f0 1 ts n) (hnf : Parser.parse e ≠ .error .fuel) :
+    Parser.parse e = .ok n := by
+  rw [parse_of_lex hl] at hnf ⊢
+  have h0 := hO _ (follow_end 1)
+  have hne : expression (fuelFor (ts ++ [endTok]).length) 1 (stOf (ts ++ [endTok])) ≠ .error .fuel := by
+    intro h
+    apply hnf
+    unfold runTop
+    rw [bind_err h]
+  apply runTop_of_expr
+  have h1 := expression_mono_res (Nat.le_max_left _ f0) hne
+  have h2 := expression_mono (Nat.le_max_right (fuelFor (ts ++ [endTok]).length) f0) h0
+  rw [← h1, h2]
+
+theorem search_of_parse {e : Bytes} {n : INode} (h : Parser.parse e = .ok n) (d : Val) :
+    search e d = evaluate n d := by
+  unfold search; rw [h]
+
+/-! ## Chains of any length at one level -/
+
+/-- `o1 B1 o2 B2 …`: every operator at level `q`, every `Bi` an operand at power `q`; `k` maps the node of the left
+    operand to the node of the whole chain (the left fold) -/
+inductive Chain (q : Nat) : List Token → (INode → INode) → Prop
+  | nil : Chain q [] id
+  | cons {o : Token} {mk} {B : List Token} {b : INode} {ts : List Token} {k : INode → INode} :
+      mkBin o.type = some mk → precedence o.type = q → (∃ f, OperandF f q B b) → Chain q ts k →
+      Chain q (o :: (B ++ ts)) (fun l => k (mk l b))
+
+theorem Chain.follow {q p : Nat} {ts k rest} (h : Chain q ts k) (hr : Follow p rest) (hpq : p ≤ q) :
+    Follow q (ts ++ rest) := by
+  cases h with
+  | nil => exact hr.mono hpq
+  | cons hmk hq _ _ => exact follow_cons hmk (Nat.le_of_eq hq)
+
+theorem chain_loop {q p : Nat} {ts k} (h : Chain q ts k) (hp : p < q) :
+    ∃ F, ∀ fuel, F ≤ fuel → ∀ l rest, Follow p rest →
+      exprLoop fuel l p (stOf (ts ++ rest)) = .ok (k l, stOf rest) := by
+  induction h with
+  | nil =>
+    refine ⟨1, fun fuel hf l rest hr => ?_⟩
+    obtain ⟨fu, rfl⟩ : ∃ fu, fuel = fu + 1 := ⟨fuel - 1, by omega⟩
+    exact exprLoop_stop hr.1
+  | @cons o mk B b ts k hmk hq hB hts ih =>
+    obtain ⟨F', ih⟩ := ih
+    obtain ⟨fB, hB⟩ := hB
+    refine ⟨fB + F' + 1, fun fuel hf l rest hr => ?_⟩
+    obtain ⟨fu, rfl⟩ : ∃ fu, fuel = fu + 1 := ⟨fuel - 1, by omega⟩
+    subst hq
+    have e : (o :: (B ++ ts)) ++ rest = o :: (B ++ (ts ++ rest)) := by simp
+    rw [e, binary_step hmk hp hB (hts.follow hr (Nat.le_of_lt hp)) (by omega)]
+    exact ih fu (by omega) _ rest hr
+
+/-- `A o1 B1 o2 B2 … on Bn`, all operators at level `q`, parses (at every lower power) to the left fold -/
+theorem chain_left {q p : Nat} {A : List Token} {a : INode} {fA : Nat} {ts k} (hA : OperandF fA q A a)
+    (h : Chain q ts k) (hp : p < q) : ∃ F, OperandF F p (A ++ ts) (k a) := by
+  obtain ⟨F, hF⟩ := chain_loop h hp
+  refine ⟨fA + F, fun rest hr => ?_⟩
+  rw [List.append_assoc]
+  exact operand_lower hA (Nat.le_of_lt hp) (h.follow hr (Nat.le_of_lt hp)) (hF F (Nat.le_refl _) a rest hr)
+
+/-! ## Small concrete checks of the helpers -/
+
+section Checks
+private def ia : Token := ⟨.unquotedIdentifier, [0x61]⟩
+private def ib : Token := ⟨.unquotedIdentifier, [0x62]⟩
+private def plus : Token := ⟨.add, [0x2B]⟩
+
+example : advance (stOf [ia, plus, ib]) = .ok ((), stOf [plus, ib]) := advance_stOf _ _
+example : advance2 (stOf [ia, plus, ib]) = .ok ((), stOf [ib]) := advance2_stOf _ _ _
+example : (stOf [ia]).next = endTok ∧ (stOf []).curr = endTok := ⟨rfl, rfl⟩
+-- `a` alone, then with any amount of extra fuel
+example : expression 3 1 (stOf [ia, endTok]) = .ok (.field [0x61], stOf [endTok]) :=
+  operand_ident (t := ia) rfl 1 [endTok] (follow_end 1)
+example : expression 1000 1 (stOf [ia, endTok]) = .ok (.field [0x61], stOf [endTok]) :=
+  expression_mono (by decide) (operand_ident (t := ia) rfl 1 [endTok] (follow_end 1))
+-- too little fuel is an `error fuel`, which `Le` rightly does not preserve
+example : expression 0 1 (stOf [ia, endTok]) = .error .fuel := by rw [expression.eq_1]; rfl
+-- one loop step: `a` in hand, `+ b` ahead
+example : exprLoop 4 (.field [0x61]) 1 (stOf [plus, ib, endTok]) =
+    exprLoop 3 (.binop .add (.field [0x61]) (.field [0x62])) 1 (stOf [endTok]) :=
+  binary_step (o := plus) (B := [ib]) (rest := [endTok]) rfl (by decide) (operand_ident (t := ib) rfl _)
+    (follow_end _) (Nat.le_refl _)
+-- the loop lemma: the loop at power 6 does not take `+`, the loop at power 1 does
+example : exprLoop (1 + 4) (.field [0x61]) 1 (stOf [plus, ib, endTok]) =
+    .ok (.binop .add (.field [0x61]) (.field [0x62]), stOf [endTok]) :=
+  loop_split (q := 6) (a := .field [0x61]) (s2 := stOf [plus, ib, endTok]) (by decide)
+    (exprLoop_stop (by decide))
+    ((binary_step (o := plus) (B := [ib]) (rest := [endTok]) rfl (by decide) (operand_ident (t := ib) rfl _)
+        (follow_end _) (Nat.le_refl _)).trans (exprLoop_stop (by decide)))
+-- a chain `a + b + a + b`
+example : ∃ F, OperandF F 1 [ia, plus, ib, plus, ia, plus, ib]
+    (.binop .add (.binop .add (.binop .add (.field [0x61]) (.field [0x62])) (.field [0x61])) (.field [0x62])) := by
+  have c : Chain 6 [plus, ib, plus, ia, plus, ib]
+      (fun l => .binop .add (.binop .add (.binop .add l (.field [0x62])) (.field [0x61])) (.field [0x62])) :=
+    .cons (o := plus) (B := [ib]) rfl rfl ⟨_, operand_ident (t := ib) rfl _⟩
+      (.cons (o := plus) (B := [ia]) rfl rfl ⟨_, operand_ident (t := ia) rfl _⟩
+        (.cons (o := plus) (B := [ib]) rfl rfl ⟨_, operand_ident (t := ib) rfl _⟩ .nil))
+  have h := chain_left (p := 1) (A := [ia]) (operand_ident (t := ia) rfl 6) c (by decide)
+  exact h
+end Checks
 
 end Jmes.Pratt
